@@ -580,8 +580,11 @@ def run_history(init, ops, model_states, res, cls_idx=0, fresh_log=None):
             prev = now
             res.count('outcome=' + ('ok' if 'ok' in out else out['raise'].split(':')[0]))
         elif k == 'pickle':
-            data = pickle.dumps(t)
-            t = pickle.loads(data)
+            try:
+                data = pickle.dumps(t)
+                t = pickle.loads(data)
+            except Exception as e:  # noqa  (a template that cannot be stored does not survive persistence)
+                oracle.append('op %d: the template cannot be pickled and restored: %s: %s' % (idx, type(e).__name__, e))
             if any(a.startswith('_v_') for a in t.__dict__):
                 oracle.append('op %d: pickled state contains compiled data %r' % (idx, [a for a in t.__dict__ if a.startswith('_v_')]))
         elif k == 'deepcopy':
@@ -2088,6 +2091,10 @@ def check(res, r, n, maxlen, have_driver, streaks=0, idioms=0, calls=0, files=0,
             for c in corr:
                 res.corr_mismatch.append({'case': {'init': init, 'ops': ops, 'class': cls_idx}, 'impl': c.get('impl'), 'model': c.get('model'),
                                           'diff': 'after op %d %s' % (c['op'], c.get('what', 'object state'))})
+    if any('cannot be pickled and restored' in f['what'] for f in res.oracle_fail):
+        # compiled templates of this tree cannot be stored at all: every further family of histories would only repeat that
+        res.count('further families skipped: templates cannot be pickled')
+        return
     recheck_fresh(res, fresh_log, r, 600 if streaks else 300)
     if idioms:
         idiom_check(res, r, idioms)
